@@ -473,5 +473,5 @@ def s_astype(ch, T):
 def s_getitem(ch, T):
     """A handful of index expressions so that the catalogue is complete; the full alphabet is C11's."""
     shape, x = _x(ch, T, 1)
-    idx = ch.choose("index", ["0", "-1", "::2", "::-1", "..., 0", "None", "[0, 0]", "x > 1.0"])
+    idx = ch.choose("index", ["0", "-1", "::2", "::-1", "..., 0", "None", "[0, 0]", "x > 1.0", "..., [0, 0]", "[0, 0], ...", "[0, -1, 0]"])
     return Case("__getitem__", "x[%s]" % idx, dict(x=x), dict(rank=len(shape), index=idx), family="S")
